@@ -41,6 +41,10 @@ enum Fault {
     DivZero,
     Subscript,
     Overflow,
+    /// the failing operation has a prefix operator in front of its left operand
+    DivZeroAfterMinus,
+    OverflowAfterMinus,
+    DivZeroAfterNot,
 }
 
 impl Fault {
@@ -53,10 +57,25 @@ impl Fault {
             Fault::DivZero => "PRINT 10 / Z%",
             Fault::Subscript => "ARR%(99) = 1",
             Fault::Overflow => "A% = 32767 + 1",
+            Fault::DivZeroAfterMinus => "PRINT -W% / Z%",
+            Fault::OverflowAfterMinus => "A% = -LEN(\"ab\") * 32767",
+            Fault::DivZeroAfterNot => "A% = NOT W% AND 7 / Z%",
+        }
+    }
+    /// where inside the statement's text the diagnostic points: the token that cannot be parsed, the
+    /// offending expression, the operator of the operation that fails; the statement itself otherwise
+    fn offset(&self) -> usize {
+        let t = self.text();
+        match self {
+            Fault::Type => t.find('"').unwrap(),
+            Fault::DivZero | Fault::DivZeroAfterMinus | Fault::DivZeroAfterNot => t.find('/').unwrap(),
+            Fault::Overflow => t.find('+').unwrap(),
+            Fault::OverflowAfterMinus => t.find('*').unwrap(),
+            _ => 0,
         }
     }
     fn is_runtime(&self) -> bool {
-        matches!(self, Fault::DivZero | Fault::Subscript | Fault::Overflow)
+        matches!(self, Fault::DivZero | Fault::Subscript | Fault::Overflow | Fault::DivZeroAfterMinus | Fault::OverflowAfterMinus | Fault::DivZeroAfterNot)
     }
     fn expected(&self) -> &'static str {
         match self {
@@ -66,7 +85,8 @@ impl Fault {
             Fault::ArgCount => "lint:ArgumentCountMismatch",
             Fault::DivZero => "run:11",
             Fault::Subscript => "run:9",
-            Fault::Overflow => "run:6",
+            Fault::Overflow | Fault::OverflowAfterMinus => "run:6",
+            Fault::DivZeroAfterMinus | Fault::DivZeroAfterNot => "run:11",
         }
     }
 }
@@ -200,7 +220,7 @@ pub fn run(args: &Args) {
 
     // ---- fault injection
     let mut w = CaseWriter::new(&args.out, "c11", HEADER11, 200);
-    let faults = [Fault::Syntax, Fault::Type, Fault::Label, Fault::ArgCount, Fault::DivZero, Fault::Subscript, Fault::Overflow];
+    let faults = [Fault::Syntax, Fault::Type, Fault::Label, Fault::ArgCount, Fault::DivZero, Fault::Subscript, Fault::Overflow, Fault::DivZeroAfterMinus, Fault::OverflowAfterMinus, Fault::DivZeroAfterNot];
     let n = if args.thorough() { 4000 } else { 500 };
     for k in 0..n {
         let fault = faults[k % faults.len()];
@@ -232,6 +252,8 @@ pub fn run(args: &Args) {
             sum.violation(ImplViolation { key: format!("wrong-row:{:?}", fault), input: shown.clone(), expected: format!("row {}", b.fault_row), observed: format!("row {} col {}", row, col) });
         } else if (col as usize) < b.fault_col_lo || (col as usize) > b.fault_col_hi {
             sum.violation(ImplViolation { key: format!("column-outside-statement:{:?}", fault), input: shown.clone(), expected: format!("column in {}..{}", b.fault_col_lo, b.fault_col_hi), observed: format!("col {}", col) });
+        } else if fault != Fault::Syntax && col as usize != b.fault_col_lo + fault.offset() {
+            sum.violation(ImplViolation { key: format!("wrong-column:{:?}", fault), input: shown.clone(), expected: format!("column {} (the token / operator at fault)", b.fault_col_lo + fault.offset()), observed: format!("col {}", col) });
         }
         if fault.is_runtime() {
             let rows: Vec<usize> = stack.iter().map(|p| p.0 as usize).collect();
@@ -254,6 +276,6 @@ pub fn run(args: &Args) {
     sum.write(
         &args.out,
         evaluations,
-        "value level: random texts (0-29 characters over letters, blank, TAB, colon, quote, apostrophe, a non-ASCII letter, CR and LF freely mixed): the real StringView position of every reader index 0..len vs RowCol.position_at. Fault injection: 7 fault kinds (syntax, type mismatch, undefined label, wrong argument count, division by zero, subscript out of range, overflow) x call depth 0-3 x directly / after a colon x top level / inside FOR+IF x blank and comment lines anywhere x LF / CRLF / CR; expected: the diagnostic kind, the row of the statement in the file, a column inside the statement, for run-time faults the rows of the active call sites innermost first; and in Coq: the reported position is the model's position of an index inside the statement's characters. Non-trivial = distinct texts.",
+        "value level: random texts (0-29 characters over letters, blank, TAB, colon, quote, apostrophe, a non-ASCII letter, CR and LF freely mixed): the real StringView position of every reader index 0..len vs RowCol.position_at. Fault injection: 10 fault kinds (syntax, type mismatch, undefined label, wrong argument count, division by zero, subscript out of range, overflow, and division by zero / overflow in an operation whose left operand carries a prefix minus or NOT) x call depth 0-3 x directly / after a colon x top level / inside FOR+IF x blank and comment lines anywhere x LF / CRLF / CR; expected: the diagnostic kind, the row of the statement in the file, a column inside the statement AND exactly the column of the offending expression or of the operator of the failing operation (every kind but the syntax error), for run-time faults the rows of the active call sites innermost first; and in Coq: the reported position is the model's position of an index inside the statement's characters. Non-trivial = distinct texts.",
     );
 }
